@@ -278,6 +278,13 @@ Inductive cmd :=
 | ACapAdd | ACapRemove | AIgnAdd | AIgnRemove
 | CCapAdd | CCapRemove | CCapSet | CCapUnset | CCapSetdefault.
 
+(* User._checkName (the repair of C02.F1): not a hostmask; name == name.strip(); none of the characters
+   of gen.T02.NAME_FORBIDDEN (TAB CR LF).  'something' already made it non-empty. *)
+Definition name_valid (n : str) : bool :=
+  negb (C16.Model.is_user_hostmask n)
+  && seq_eqb n (C16.Model.strip_ws n)
+  && negb (existsb (fun c => mem c n) gen.T02.NAME_FORBIDDEN).
+
 Definition d_register s E args :=
   match args with
   | [name; pw] =>
@@ -285,7 +292,7 @@ Definition d_register s E args :=
         match lookup_id s E name with
         | Some _ => ENone
         | None =>
-            if C16.Model.is_user_hostmask name then ENone
+            if negb (name_valid name) then ENone
             else match caller s E with
                  | Some u => if acct_owner u then ERegister name pw false else ENone
                  | None => ERegister name pw true
@@ -318,7 +325,8 @@ Definition d_changename s E args :=
           match lookup_id s E new with
           | Some _ => ENone
           | None =>
-              if check_hostmask u (e_prefix E) true then ESet u (MName new)
+              if negb (name_valid new) then ENone
+              else if check_hostmask u (e_prefix E) true then ESet u (MName new)
               else match pw_ok u (Some pw) with Some true => ESet u (MName new) | _ => ENone end
           end
       | _ => ENone
@@ -438,7 +446,8 @@ Definition d_acapadd s E args :=
       match conv_other s E n with
       | Some u =>
           let cap := C03.Model.fold c in
-          if seq_eqb (C03.Model.fold cap) (C03.Model.fold OWNER) then ENone          (* ircutils.strEqual(capability, 'owner') *)
+          if negb (C16.Model.token cap) then ENone     (* capability.split() != [capability]: empty or some whitespace *)
+          else if seq_eqb (C03.Model.fold cap) (C03.Model.fold OWNER) then ENone     (* ircutils.strEqual(capability, 'owner') *)
           else
             let entitled := if C03.Model.isAntiCapability cap then true else holds s E cap in
             if entitled then
@@ -523,13 +532,17 @@ Definition d_ccap (k : cmd) s E args :=
               match conv_other s E n with
               | Some u =>
                   if is_capname c then
-                    let cap := ch ++ [COMMA] ++ C16.Model.strip_ws c in
+                    match C16.Model.split_ws c with          (* for c in capabilities.split(): exactly one word here *)
+                    | [w] =>
+                    let cap := ch ++ [COMMA] ++ w in
                     match k with
                     | CCapAdd => match C03.Model.ucs_add (caps u) cap with
                                  | Ok cs => ESet u (MCaps cs)
                                  | Raise _ => ENone
                                  end
                     | _ => ESet u (MCaps (C03.Model.sremove (C03.Model.fold cap) (caps u)))
+                    end
+                    | _ => ENone
                     end
                   else ENone
               | _ => ENone
@@ -744,6 +757,39 @@ Definition reload_dom (s : st) : bool := C16.Model.users_dom (db_of s) && match 
 Definition names_safe (s : st) : bool := forallb (fun a => C16.Model.safe_field (C16.Model.u_name (a_u a))) (s_users s).
 
 (* ------------------------------------------------------------------ *)
+(* domains of the reload theorem (extracted; the harness reports them at every reload) *)
+
+(* a capability that UserCapabilitySet.add accepts and stores unchanged: one token, already folded, not -owner *)
+Definition addable (c : str) : bool :=
+  C16.Model.token c && seq_eqb (C16.Model.fold c) c && negb (seq_eqb c C16.Model.ANTIOWNER)
+  && match C16.Model.invertCapability c with Ok _ => true | Raise _ => false end.
+
+Definition nick_ok (nn : str * list str) : bool :=
+  C16.Model.token (fst nn) && match snd nn with [] => false | _ => true end
+  && forallb (fun n => C16.Model.no_nl_tab n && negb (mem C16.Model.SP n)) (snd nn).
+
+(* an account every field of which (hostmasks apart) is written on lines that are read back as that field *)
+Definition wf_user (u : C16.Model.user) : bool :=
+  match C16.Model.u_id u with Some z => Z.leb 0 z | None => false end
+  && C16.Model.safe_field (C16.Model.u_name u) && negb (C16.Model.is_user_hostmask (C16.Model.u_name u))
+  && C16.Model.u_hashed u && C16.Model.safe_field (C16.Model.u_password u)
+  && forallb addable (C16.Model.u_caps u)
+  && forallb nick_ok (C16.Model.u_nicks u) && C16.Model.nicks_stable (C16.Model.u_nicks u)
+  && forallb C16.Model.safe_field (C16.Model.u_gpg u).
+Definition hosts_ok (u : C16.Model.user) : bool := forallb C16.Model.token (C16.Model.u_hosts u).
+
+Definition wf_acct (a : acct) : bool := wf_user (a_u a).
+(* the invariant of the command histories (proved in Inv.v) *)
+Definition wf_state (s : st) : bool :=
+  forallb wf_acct (s_users s) && Z.leb 0 (s_next s)
+  && match s_creator s with
+     | None => true
+     | Some q => match C16.Model.u_id q with Some _ => true | None => false end
+     end.
+(* the remaining domain condition of the reload theorem: every stored hostmask is a single token *)
+Definition hosts_dom (s : st) : bool := forallb (fun a => hosts_ok (a_u a)) (s_users s).
+
+(* ------------------------------------------------------------------ *)
 (* wire *)
 
 Definition gEnv (v : value) : env :=
@@ -780,14 +826,15 @@ Definition eff_code (e : effect) : Z :=
   | ENone => 0 | ESet _ _ => 1 | EDel _ => 2 | ERegister _ _ _ => 3 | EChan _ _ => 4 | EIgnAdd _ => 5 | EIgnDel _ => 6
   end%Z.
 
-(* after each op: (state dump, reload_dom before the op, names_safe before the op, effect code) *)
+(* after each op: (state dump, reload_dom / names_safe before the op, effect code, wf_state / hosts_dom before the op) *)
 Fixpoint trace (s : st) (ops : list op) : list value :=
   match ops with
   | [] => []
   | o :: r =>
       let s' := step s o in
       L [vSt s'; vB (reload_dom s); vB (names_safe s);
-         I (match o with OCmd E t => eff_code (effect_of s E t) | _ => (-1)%Z end)] :: trace s' r
+         I (match o with OCmd E t => eff_code (effect_of s E t) | _ => (-1)%Z end);
+         vB (wf_state s); vB (hosts_dom s)] :: trace s' r
   end.
 
 (* run (kind payload):
